@@ -102,6 +102,18 @@ COMPOSITES = {
         complex="staticfield", count=2, item_byte_size=4,
         structure=dict(params=[V("d", dict(dt="A_BYTEFIELD", dct="minmax", min=0, max=3,
                                            term="HEX-FF"))])))], "blens": [0, 1, 3]},
+    # items that end in a terminated object: every item but the last one needs its terminator
+    "eop-field-minmax-item": {"params": [SID, V("f", dict(
+        complex="eopfield", structure=dict(params=[V("id", U8), V("d", dict(
+            dt="A_BYTEFIELD", dct="minmax", min=0, max=3, term="ZERO"))])))],
+        "counts": [1, 2, 3], "blens": [1, 2, 3]},
+    # a field with a minimum and a maximum number of items
+    "eop-field-bounded": {"params": [SID, V("f", dict(
+        complex="eopfield", min=1, max=2, structure=dict(params=[V("x", U8), V("y", U8)])))],
+        "counts": [1, 2]},
+    # a constant that shares its byte with a value
+    "nibble-const-shares-byte": {"params": [SID, C("c", 0xA, bl=4, bitpos=4),
+                                            V("ch", U4, bytepos=1, bitpos=0), TAIL]},
     "static-field": {"params": [SID, V("f", dict(complex="staticfield", count=2, item_byte_size=3,
                                                  structure=dict(params=[V("x", U8), V("y", U8)]))),
                                 TAIL]},
